@@ -69,6 +69,7 @@ prop("C06", "break / continue / lazybreak steer loops as documented", [
     ("continue_abandons_rest", "body_cons_cont", "continue abandons the rest of the iteration (a lazybreak seen before it survives)"),
     ("break_abandons_rest", "body_cons_break", "break abandons the rest of the iteration"),
     ("lazybreak_lets_iteration_finish", "body_cons_lazy", "lazybreak lets the iteration go on and is remembered"),
+    ("continue_after_lazybreak_in_block_is_break", "rules_lz_cons_cont", "a continue that follows a lazybreak inside the same if / switch block ends the iteration and the loop (D42): the block reports a break"),
     ("lazybreak_lets_block_finish", "rules_lz_cons_lazy", "also inside an if / switch block: the rest of the block still runs"),
     ("block_hands_lazybreak_on", "rules_clean", "and the block hands the signal to the loop afterwards"),
     ("rest_of_iteration_not_executed", "body_rest_irrelevant", "what follows a break / continue / failing rule is not executed"),
